@@ -26,6 +26,8 @@ TINY = 2.0 ** -27     # non-zero, exactly representable, below the default absol
 COEFFS = [1.0, -1.0, 2.0, 0.5, 0.0, TINY]
 # complex coefficients (written as strings in cases so that replay files stay JSON): sums cancel exactly (1j + -1j) or stay complex
 CCOEFFS = [1.0, '1j', '-1j', '(0.5-0.5j)']
+NEAR1 = 1.0 + 2.0 ** -18       # equal to 1 under np.isclose, different from 1 for the exact comparison
+MERSENNE = 2 ** 61 - 1         # hash(x) == hash(x + MERSENNE) for Python integers; also hash(-1) == hash(-2)
 
 
 def cval(c):
@@ -52,8 +54,9 @@ def menu(L, letters, mode, coeffs):
             if q[-1] != 0:
                 continue
             qs = [q]
-        elif mode == 'interior':
-            qs = [[0] + list(t) + [0] for t in itertools.product((0, 1), repeat=len(w) - 1)]
+        elif mode in ('interior', 'interior_neg'):
+            # ('interior_neg': interior bond charges -1 and -2, two values with the same Python hash)
+            qs = [[0] + list(t) + [0] for t in itertools.product((0, 1) if mode == 'interior' else (-1, -2), repeat=len(w) - 1)]
         else:
             qs = [[0] * (len(w) + 1)]
         for q in qs:
@@ -153,12 +156,17 @@ def run_case(case, ctx):
     got = sym.graph_poly(graph)
     ctx.obs(sorted((w, complex(c)) for w, c in got.items()))
     ctx.check(sym.pequal(got, ref), 'graph_operator_equals_sum_of_chains', sym.pdiff(got, ref))
-    if mode == 'interior':
+    if mode in ('interior', 'interior_neg'):
         return
     qd = [0, 0] if mode == 'zero' else sym.FAITHFUL_QD
-    refd = sym.poly_dense(ref, sym.FAITHFUL, L, 2)
-    check_mpo_from_graph(ctx, graph, qd, sym.FAITHFUL, L, refd)
-    if mode == 'zero' and L <= 2 and len(chains) <= 2:
+    # operator labels are arbitrary integers (negative, huge): the faithful operators are assigned by |label| mod 4
+    labels = sorted({o for _, w, _, _ in chains for o in w} | {0})
+    opmap = sym.FAITHFUL if all(0 <= o <= 3 for o in labels) else {o: sym.FAITHFUL[abs(o) % 4] for o in labels}
+    if opmap is not sym.FAITHFUL:
+        ctx.cls('unusual_operator_labels')
+    refd = sym.poly_dense(ref, opmap, L, 2)
+    check_mpo_from_graph(ctx, graph, qd, opmap, L, refd)
+    if opmap is sym.FAITHFUL and mode == 'zero' and L <= 2 and len(chains) <= 2:
         # a second, generic (non-faithful) operator map of local dimension 3 - "all local operator maps"
         from props.c17 import GEN3
         check_mpo_from_graph(ctx, graph, [0, 0, 0], GEN3, L, sym.poly_dense(ref, GEN3, L, 3), prefix='generic_map:')
@@ -242,6 +250,13 @@ def spaces(tier, seed):
             (2, [0, 1, 2], 'zero', CCOEFFS, 2),
             (2, [0, 1, 2, 3], 'consistent', CCOEFFS, 2),
             (3, [0, 1], 'zero', CCOEFFS[:3], 2),
+            (1, [0, 1, 2], 'zero', [1.0, NEAR1, 0.5], 3),
+            (2, [0, 1, 2], 'zero', [NEAR1, 1.0], 2),
+            (3, [0, 1], 'zero', [NEAR1], 2),
+            (2, [0, -1, -2], 'zero', [1.0, 2.0], 2),
+            (3, [0, -1, -2], 'zero', [1.0], 2),
+            (2, [0, 5, 5 + MERSENNE], 'zero', [1.0, 2.0], 2),
+            (3, [0, 1], 'interior_neg', [1.0, 2.0], 2),
         ]
     else:
         plan = [
@@ -261,10 +276,19 @@ def spaces(tier, seed):
             (2, [0, 1, 2, 3], 'consistent', CCOEFFS, 3),
             (3, [0, 1, 2], 'zero', CCOEFFS, 2),
             (3, [0, 1, 2, 3], 'consistent', CCOEFFS[:3], 2),
+            (1, [0, 1, 2], 'zero', [1.0, NEAR1, 0.5], 3),
+            (2, [0, 1, 2], 'zero', [NEAR1, 1.0], 2),
+            (3, [0, 1], 'zero', [NEAR1], 2),
+            (2, [0, -1, -2], 'zero', [1.0, 2.0], 3),
+            (3, [0, -1, -2], 'zero', [1.0], 2),
+            (2, [0, 5, 5 + MERSENNE], 'zero', [1.0, 2.0], 2),
+            (3, [0, 1], 'interior_neg', [1.0, 2.0], 3),
         ]
     sps = []
     for (L, letters, mode, coeffs, K) in plan:
-        name = f'chains_L{L}_{mode}_a{len(letters)}_c{len(coeffs)}{"x" if any(isinstance(c, str) for c in coeffs) else ""}_K{K}'
+        tag = ('x' if any(isinstance(c, str) for c in coeffs) else '') + ('n' if NEAR1 in coeffs else '') + \
+              ('neg' if min(letters) < 0 else '') + ('big' if max(letters) > 3 else '')
+        name = f'chains_L{L}_{mode}_a{len(letters)}_c{len(coeffs)}{tag}_K{K}'
         sps.append(Space(name, make_chunks(L, letters, mode, coeffs, K), run_case=run_case, expand=expand, sig=sig,
                          bounds={'L': L, 'letters': letters, 'charge_mode': mode, 'coeffs': coeffs, 'max_chains': K,
                                  'menu_size': len(get_menu(L, letters, mode, coeffs))}))
